@@ -169,7 +169,10 @@ func c06Family(c *vlib.Ctx) []CfgLit {
 			CfgLit{Origins: ol, TolPSL: true, Methods: []string{"*"}, RequestHeaders: []string{"*"}, ResponseHeaders: []string{"*"}, MaxAge: -1, Status: 200})
 	}
 	// B: a few origin lists x the product of all other fields
-	ob := [][]string{{"https://a.b", "https://*.c.d:*"}, {"*"}, {"http://[::1]:9090", "http://e.f"}, richOrigins}
+	ob := [][]string{{"https://a.b", "https://*.c.d:*"}, {"*"}, {"http://[::1]:9090", "http://e.f"}, richOrigins,
+		// more distinct schemes than a small fixed-size table holds, listed in an order that differs from the sorted one
+		{"wss://e.x", "ws://e.x", "https://e.x", "http://e.x", "app://e.x", "ionic://e.x", "capacitor://e.x", "a1://e.x:7"},
+		{"x5://e.x", "x4://*.e.x", "x3://e.x:*", "x2://e.x:8", "x1://e.x"}}
 	ms := [][]string{nil, {"GET", "POST"}, {"put", "PATCH"}, {"*"}, {"*", "PUT"}, richMethods}
 	qs := [][]string{nil, {"X-B", "x-a"}, {"*"}, {"*", "Authorization"}, {"Authorization", "*"}, {"Authorization"}, richReqHdrs}
 	rs := [][]string{nil, {"Content-Type", "Expires"}, {"X-R", "x-q"}, {"*"}, {"*", "X-R"}, richResHdrs}
